@@ -1,0 +1,6 @@
+//go:build !verif
+
+package trzsz
+
+// vhook marks a point observed by the verification harness ( build tag `verif` ); it is a no-op otherwise.
+func vhook(point string, args ...int) {}
